@@ -314,7 +314,7 @@ func genBackupCase(rt *rapid.T) BackupCase {
 var c17 = &h.Campaign[BackupCase]{
 	Prop: "C17", Sub: "backup",
 	Rule: "rapid + testing/synctest: timelines over virtual time of database writes (single, bursts, long idle gaps, during uploads), an upload outcome script (ok / HTTP 403 / network error / slow then ok / hangs until the request context ends) served by an in-memory HTTP client behind a real s3.Client, and cancellation at a generated instant; the real periodic backup loop runs through the build-tagged hook; every database file version is snapshotted by the harness; a watchdog outside the bubble reports a loop that stays runnable without virtual progress (>= 10 samples over >= 2 s real time); non-trivial = timeline with an idle gap > 1 minute, a failed upload, or a write racing an upload; distinct by timeline",
-	Quick: 1500, Thorough: 80000,
+	Quick: 1500, Thorough: 600000,
 	Gen:   genBackupCase,
 	Run:   runC17,
 }
